@@ -23,6 +23,7 @@ TABLE = [
     ("Mapping::iter visits every stored id", "C19"),
     ("added snapshot version sets no longer shadow", "C16"),
     ("guard resolvo::String copy assignment", "C17"),
+    ("read favored/locked before consuming", "C17"),
 ]
 
 def sh(cmd, **kw):
